@@ -1,41 +1,171 @@
 """
 Facts about TransportMixIn.single_request / ServerProxy._run_request (C19).
+
+The facts describe semantics, not the literal shape: local one-step aliases (`status = response.status`,
+`conn = self`, `length = response.getheader(...)`) and reordered independent statements do not change them.
 """
 import ast
 
-from __main__ import Fact, lean_bool
+from __main__ import Fact, lean_bool, lean_list
 
 PROPERTIES = ["C19"]
 
 
-def _closes_on_error(fn):
-    """single_request: a bare/`Exception` handler around the exchange that calls self.close() and re-raises."""
+def _aliases(fn):
+    """name -> value node of its (single) plain assignment `name = <expr>` anywhere in the function."""
+    seen, dup = {}, set()
+    for n in ast.walk(fn):
+        if isinstance(n, ast.Assign) and len(n.targets) == 1 and isinstance(n.targets[0], ast.Name):
+            k = n.targets[0].id
+            if k in seen:
+                dup.add(k)
+            seen[k] = n.value
+    for k in dup:
+        seen.pop(k, None)
+    return seen
+
+
+def _resolve(node, al):
+    """One step of alias resolution."""
+    if isinstance(node, ast.Name) and node.id in al:
+        return al[node.id]
+    return node
+
+
+def _is_self_close(node, al):
+    if not (isinstance(node, ast.Call) and isinstance(node.func, ast.Attribute) and node.func.attr == "close"):
+        return False
+    obj = _resolve(node.func.value, al)
+    return isinstance(obj, ast.Name) and obj.id == "self"
+
+
+def _exchange_try(fn):
+    """The try statement of single_request whose body performs the exchange (calls getresponse)."""
     for n in ast.walk(fn):
         if isinstance(n, ast.Try):
-            for h in n.handlers:
-                if h.type is None or (isinstance(h.type, ast.Name) and h.type.id in ("Exception", "BaseException")):
-                    closes = any(isinstance(m, ast.Call) and isinstance(m.func, ast.Attribute) and m.func.attr == "close"
-                                 and isinstance(m.func.value, ast.Name) and m.func.value.id == "self" for s in h.body for m in ast.walk(s))
-                    reraises = any(isinstance(s, ast.Raise) and s.exc is None for s in h.body)
-                    covers = any(isinstance(m, ast.Attribute) and m.attr == "getresponse" for s in n.body for m in ast.walk(s))
-                    if covers:
-                        return closes and reraises
-            return False
+            if any(isinstance(m, ast.Attribute) and m.attr == "getresponse" for s in n.body for m in ast.walk(s)):
+                return n
+    return None
+
+
+def _closes_on_error(fn):
+    """single_request: a bare / `Exception` / `BaseException` handler around the exchange (send + getresponse + parse)
+    that calls self.close() and re-raises."""
+    al = _aliases(fn)
+    t = _exchange_try(fn)
+    if t is None:
+        return None
+    sends = any(isinstance(m, ast.Attribute) and m.attr in ("send_request", "send_content") for s in t.body for m in ast.walk(s))
+    for h in t.handlers:
+        if h.type is None or (isinstance(h.type, ast.Name) and h.type.id in ("Exception", "BaseException")):
+            closes = any(_is_self_close(m, al) for s in h.body for m in ast.walk(s))
+            reraises = any(isinstance(s, ast.Raise) and s.exc is None for s in h.body)
+            return bool(closes and reraises and sends)
+    return False
+
+
+def _success_statuses(fn):
+    """The statuses for which single_request returns the parsed response: `<resp>.status == 200` -> [200];
+    `in (200, 202)` -> [200, 202]; anything else -> None."""
+    al = _aliases(fn)
+    t = _exchange_try(fn)
+    if t is None:
+        return None
+    found = []
+    for n in ast.walk(t):
+        if isinstance(n, ast.If):
+            # only returns in the `if` body count
+            returns_parsed = any(isinstance(s, ast.Return) and s.value is not None and any(
+                isinstance(m, ast.Attribute) and m.attr == "parse_response" for m in ast.walk(s.value))
+                for b in n.body for s in ast.walk(b))
+            if not returns_parsed:
+                continue
+            test = n.test
+            if not (isinstance(test, ast.Compare) and len(test.ops) == 1 and len(test.comparators) == 1):
+                return None
+            left, op, right = _resolve(test.left, al), test.ops[0], _resolve(test.comparators[0], al)
+
+            def is_status(x):
+                return isinstance(x, ast.Attribute) and x.attr == "status"
+
+            def num(x):
+                return x.value if isinstance(x, ast.Constant) and type(x.value) is int else None
+            if isinstance(op, ast.Eq):
+                if is_status(left) and num(right) is not None:
+                    found.append([num(right)])
+                elif is_status(right) and num(left) is not None:
+                    found.append([num(left)])
+                else:
+                    return None
+            elif isinstance(op, ast.In) and is_status(left) and isinstance(right, (ast.Tuple, ast.List, ast.Set)):
+                vals = [num(e) for e in right.elts]
+                if any(v is None for v in vals):
+                    return None
+                found.append(sorted(set(vals)))
+            else:
+                return None
+    # a return of the parsed response outside any such `if` means every status is accepted
+    for s in ast.walk(t):
+        if isinstance(s, ast.Return) and s.value is not None and any(
+                isinstance(m, ast.Attribute) and m.attr == "parse_response" for m in ast.walk(s.value)):
+            inside = False
+            for n in ast.walk(t):
+                if isinstance(n, ast.If) and any(s is x for b in n.body for x in ast.walk(b)):
+                    inside = True
+            if not inside:
+                return None
+    if len(found) != 1:
+        return None
+    return found[0]
+
+
+def _length_if(fn):
+    """The `if` (after the exchange) testing the announced Content-Length of the non-200 reply."""
+    al = _aliases(fn)
+    for n in ast.walk(fn):
+        if isinstance(n, ast.If):
+            test = n.test
+            nodes = list(ast.walk(test)) + [m for x in ast.walk(test) for m in ast.walk(_resolve(x, al))]
+            if any(isinstance(m, ast.Constant) and isinstance(m.value, str) and m.value.lower() == "content-length" for m in nodes):
+                return n
     return None
 
 
 def _drains_when_length(fn):
     """`if response.getheader("content-length", …): response.read()` before raising TransportError."""
-    for n in ast.walk(fn):
-        if isinstance(n, ast.If):
-            test_ok = any(isinstance(m, ast.Constant) and isinstance(m.value, str) and m.value.lower() == "content-length"
-                          for m in ast.walk(n.test))
-            reads = any(isinstance(m, ast.Call) and isinstance(m.func, ast.Attribute) and m.func.attr == "read"
-                        for s in n.body for m in ast.walk(s))
-            if test_ok:
-                return reads
-    raises_te = any(isinstance(m, ast.Name) and m.id == "TransportError" for m in ast.walk(fn))
-    return False if raises_te else None
+    n = _length_if(fn)
+    if n is None:
+        raises_te = any(isinstance(m, ast.Name) and m.id == "TransportError" for m in ast.walk(fn))
+        return False if raises_te else None
+    return any(isinstance(m, ast.Call) and isinstance(m.func, ast.Attribute) and m.func.attr == "read"
+               for s in n.body for m in ast.walk(s))
+
+
+def _closes_when_no_length(fn):
+    """Whether the `else` of that test closes the connection (`self.close()`); False when there is no else."""
+    al = _aliases(fn)
+    n = _length_if(fn)
+    if n is None:
+        raises_te = any(isinstance(m, ast.Name) and m.id == "TransportError" for m in ast.walk(fn))
+        return False if raises_te else None
+    return any(_is_self_close(m, al) for s in n.orelse for m in ast.walk(s))
+
+
+def _raises_transport_error(fn):
+    """After the exchange, the function ends by raising TransportError(host + handler, <response>.status, …)."""
+    al = _aliases(fn)
+    last = fn.body[-1] if fn.body else None
+    if not (isinstance(last, ast.Raise) and isinstance(last.exc, ast.Call)):
+        return False
+    call = last.exc
+    if not (isinstance(call.func, ast.Name) and call.func.id == "TransportError" and len(call.args) >= 2):
+        return False
+    url, status = _resolve(call.args[0], al), _resolve(call.args[1], al)
+    url_ok = (isinstance(url, ast.BinOp) and isinstance(url.op, ast.Add)
+              and isinstance(url.left, ast.Name) and url.left.id == "host"
+              and isinstance(url.right, ast.Name) and url.right.id == "handler")
+    status_ok = isinstance(status, ast.Attribute) and status.attr == "status"
+    return bool(url_ok and status_ok)
 
 
 def _empty_body_none(fn):
@@ -54,11 +184,23 @@ def facts(src):
     a = _closes_on_error(sr) if sr is not None else None
     b = _drains_when_length(sr) if sr is not None else None
     c = _empty_body_none(rr) if rr is not None else None
+    d = _success_statuses(sr) if sr is not None else None
+    e = _closes_when_no_length(sr) if sr is not None else None
+    f = _raises_transport_error(sr) if sr is not None else None
     return [
         Fact("singleRequestClosesOnError", "Bool", None if a is None else lean_bool(a), ["C19"],
-             "single_request closes the cached connection and re-raises on any exception of the exchange", json_value=a),
+             "single_request closes the cached connection and re-raises on any exception of the exchange (send, getresponse, parse)",
+             json_value=a),
+        Fact("singleRequestSuccessStatuses", "List Nat", None if d is None else lean_list([str(x) for x in d]), ["C19"],
+             "the statuses for which single_request parses and returns the reply (the test `response.status == 200`)", json_value=d),
+        Fact("singleRequestRaisesTransportError", "Bool", None if f is None else lean_bool(f), ["C19"],
+             "every other status ends in `raise TransportError(host + handler, response.status, ...)`", json_value=f),
         Fact("singleRequestDrainsWhenLength", "Bool", None if b is None else lean_bool(b), ["C19"],
-             "single_request drains the body of a non-200 reply when a Content-Length is announced", json_value=b),
+             "single_request drains the body of a non-200 reply when a Content-Length is announced (a switch of the model: Lib.drain)",
+             json_value=b),
+        Fact("singleRequestClosesWhenNoLength", "Bool", None if e is None else lean_bool(e), ["C19"],
+             "single_request closes the connection of a non-200 reply that announces no Content-Length (a switch of the model: Lib.closeNoLen)",
+             json_value=e),
         Fact("runRequestEmptyBodyNone", "Bool", None if c is None else lean_bool(c), ["C19"],
              "_run_request returns None for an empty body", json_value=c),
     ]
